@@ -19,6 +19,7 @@ LEVEL_TEXT = ("Every action sequence up to length 3 over a 14-letter alphabet x 
               "at every idle point, and reboot ordering per message. Histories beyond the core are sampled")
 LEVEL_NOTE = ("trusts the live-offer model + reboot-detector model in this module, the virtual loop (FIFO order for equal deadlines), "
               "one listener object per registration; coincident offer/deadline accepts both outcomes the property allows")
+TIEBREAK_VARIANTS = True  # thorough tier: some shards run equal-deadline timers LIFO / in seeded random order
 RULE = (
     "alphabet: offer s1 ttl1 / ttl-inf, stop s1, offer s2 ttl2, reboot+offer s1, reboot only, connection loss, watch/unwatch a "
     "wildcard filter, watch-all/unwatch-all, offer from a second source, offer via the multicast channel, stop+offer in one message; "
